@@ -164,6 +164,20 @@ def flushSinks (s : BSt) : BSt :=
     if throwsAt k.fthrow k'.fcalls then (s1.emit (.fthrow sid)).emit (.notify "n:ffail")
     else s1.emit (.flushed sid)) s
 
+/-- `_flush_and_run_active_sinks(_, interval)`: interval 0 = always flush (no clock read); otherwise the steady clock is
+    read (site 7: a clock read of the backend) and the sinks are flushed only if more than `interval` has passed since
+    `_last_sink_flush_time`, which is then updated. Call sites: the idle branch of `_poll` passes the option
+    (`cfg.flushInterval`); the Flush event and `_exit` pass the literal 0 (`flushSinks` directly). -/
+def flushGate (inj : BSt → Nat → BSt) (s : BSt) (interval : Nat) : BSt :=
+  if interval = 0 then flushSinks s
+  else
+    let s1 := inj s 7
+    if interval < s1.now - s1.lastFlush then flushSinks { s1 with lastFlush := s1.now } else s1
+
+/-- F33 repair, head of `_cleanup_invalidated_loggers`: `if (has_invalidated_loggers()) _flush_and_run_active_sinks(false, 0)` -/
+def preEraseFlush (s : BSt) : BSt :=
+  if s.cfg.flushBeforeLoggerErase && s.hasInvalidLoggers then flushSinks s else s
+
 /-! ### backend: context and logger clean-up -/
 
 def ctxEmpty (s : BSt) (i : Nat) : BSt × Bool :=
@@ -372,9 +386,9 @@ def poll (inj : BSt → Nat → BSt) (s : BSt) : BSt :=
     else batchLoop inj (totalBuffered s1 + 64) s1
   else
     let s2 := inj s1 5
-    let s3 := checkFailures inj (flushSinks s2)
+    let s3 := checkFailures inj (flushGate inj s2 s2.cfg.flushInterval)
     let r := allEmpty s3
-    if r.2 then cleanupLoggers inj (cleanupContexts r.1) else r.1
+    if r.2 then cleanupLoggers inj (preEraseFlush (cleanupContexts r.1)) else r.1
 
 /-- `_exit` with `wait_for_queues_to_empty_before_exit`: the clock advances by `tick` at every sampling -/
 def exitLoop (inj : BSt → Nat → BSt) (tick : Nat) : Nat → BSt → BSt
@@ -383,7 +397,7 @@ def exitLoop (inj : BSt → Nat → BSt) (tick : Nat) : Nat → BSt → BSt
     let r := allEmpty s
     if r.2 then
       let s1 := flushSinks (checkFailures inj r.1)
-      cleanupLoggers inj (cleanupContexts s1)
+      cleanupLoggers inj (preEraseFlush (cleanupContexts s1))
     else
       let s0 := { r.1 with now := r.1.now + tick }
       let (s1, count) := populate inj s0
